@@ -53,7 +53,7 @@ CHECKS = {
                 text="_ClsLevelDispatch.update_subclass is proved for any MRO and any prior registry state: afterwards the target's collection holds, after what it held, every listener of every ancestor that has a collection, nothing else, and every other class's collection is untouched (loop invariant over the MRO). The exec-once family of _CompoundListener (_exec_once_impl, exec_once, exec_once_unless_exception) is proved in the monitor-with-interference reading: with two ghost counters (successful dispatches, final failures) the invariant `ok + final <= 1 and _exec_once == (ok + final == 1)` holds at every release of the exec-once mutex whatever other threads do (counters monotone: rely/guarantee), so exec_once dispatches at most once overall and nothing dispatches again after a success. Bounded complement: listen/remove/dispatch histories against a ghost registry, incl. nested and concurrent (two threads, forced schedule) dispatches of once listeners.",
                 note="other listener containers (_ListenerCollection, _EventKey, registry), util.only_once and _exec_w_sync_on_first_run bounded only; WeakKeyDictionary modelled as dict; interleaving granularity = statements outside the mutex"),
     "C36": dict(level="proof", technique=PROOF_TECH, design="DESIGN.md §5 C36",
-                text="History.from_scalar_attribute and from_object_attribute are proved against the documented conventions for every combination of committed value / current value / sentinels (all paths). Bounded complement: mutation sequences on mapped attributes incl. flush.",
+                text="History.from_scalar_attribute and from_object_attribute are proved against the documented conventions for every combination of committed value / current value / sentinels (all paths); _ScalarAttributeImpl.set / delete are proved to record the value before the first change since the last flush in committed_state (first write wins), to store / remove the attribute in the instance dict, and to leave every other attribute alone, also when a listener raises. Bounded complement: mutation sequences on mapped attributes incl. flush.",
                 note="is_equal pure; from_collection, the attribute impls and _modified_event are bounded only"),
     "C38": dict(level="proof", technique=PROOF_TECH, design="DESIGN.md §5 C38",
                 text="the instrumented list operations with an integer index (append, insert, remove, __setitem__, __delitem__, pop) and extend / += / clear are proved to produce list's contents, return value and exception and exactly the right ghost event log, for lists of any length; remove(absent) firing an event is a KNOWN-FINDING. All 13 instrumented set operations (add, discard, remove, pop, clear, update, difference_update, intersection_update, symmetric_difference_update, |= -= &= ^=) are proved for set arguments: members as the builtin's, and an event log that accounts exactly (order-insensitively for the bulk operations) for the members that arrived and left; dict __setitem__, __delitem__, pop, popitem, setdefault, clear likewise (events over the values). Bounded complement: all list/set/dict operations incl. slices side by side with the builtins.",
